@@ -40,12 +40,14 @@ class Sched:
         finally:
             with self.cv:
                 self.alive.discard(name); self.current = self._next(); self.cv.notify_all()
-    def point(self, blocked=False):
+    def point(self, blocked=False, prefer=None):
         name = getattr(self.tl, "name", None)
         if name is None: return
         with self.cv:
             self.steps += 1
-            self.current = self._next(avoid=name if blocked else None)
+            # a thread blocked on a lock hands control to the holder of the lock (otherwise two blocked threads could pass
+            # the control to each other for ever)
+            self.current = prefer if (prefer in self.alive) else self._next(avoid=name if blocked else None)
             self.cv.notify_all()
             while self.current != name: self.cv.wait(30)
 
@@ -58,7 +60,7 @@ class SchedLock:
         while self.owner not in (None, me):
             s = self.get_sched()
             if s is None: raise RuntimeError("lock held outside a schedule")
-            s.point(blocked=True)
+            s.point(blocked=True, prefer=self.owner)
         self.owner = me; self.count += 1; return True
     def release(self):
         self.count -= 1
@@ -136,6 +138,7 @@ def run(prop, seed, budget, ctx):
                 sched = Sched(schedule, tl); state["sched"] = sched
                 finished = sched.start({k: mk(k, tp) for k, tp in types.items()})
                 state["sched"] = None
+                if orig_lock is not None: recursion._lock = SchedLock(lambda: state["sched"], tl)
                 evaluations += 1; hist["yield-points:%d" % min(sched.steps // 10 * 10, 60)] += 1
                 got_cache = {str(k[0]): v for k, v in caches.get(DeserializationRecursiveChecker, {}).items()}
                 distinct.add(case_hash(i % len(GRAPHS), "".join(schedule[:30])))
